@@ -549,6 +549,111 @@ def c16(v):
     eventtrace(v, "oracle", plan, lambda op: {"range", "panic"} if op in ("OD.trunc", "OD.round") else {"result", "range", "panic"})
 
 
+def month_edge_days(v):
+    """days whose day-of-month matters for month arithmetic: 1, 15, 28..31"""
+    import calendar
+    years = vlib.QUICK_YEARS if v.tier == "quick" else range(1, 10000)
+    out = []
+    for y in years:
+        for m in range(1, 13):
+            last = calendar.monthrange(2000 + (y % 400), m)[1]   # same leap pattern, avoids year < 1 limits
+            for d in (1, 15, 28, 29, 30, 31):
+                if d <= last:
+                    out.append(vlib.dayno(y, m, d))
+    return out
+
+
+@prop("C09")
+def c09(v):
+    import pools
+    v.cov["rule"] = ("days with day-of-month 1/15/28..31 of the window years x month offsets -40..40, the offsets reaching the first and "
+                     "last supported month, the interval limits and random offsets, through Date (-> Timestamp at midnight), Timestamp "
+                     "(time kept) and OracleDate, add and subtract; last_day_of_month on all three types; DaySweep.tla checks "
+                     "last_day_of_month on every day of the window.  Judged by Ops.tla: floor division on 12*year+month-1+k, Err iff the "
+                     "target month lacks the day or the year leaves 1..9999.")
+    P = pools.Pools(v.seed, scale_of(v))
+    days = month_edge_days(v)
+    if v.tier == "thorough":
+        days = days[::3] + days[1::3][::2]      # 2/3 of all month-edge days of all years
+    plan = []
+    rnd = P.rnd
+    base = list(range(-40, 41))
+    for idx, n in enumerate(days):
+        y, m, d = civil(n)
+        mi = y * 12 + (m - 1)
+        ks = base + [12 - mi, 11 - mi, 13 - mi, 9999 * 12 + 11 - mi, 9999 * 12 + 12 - mi, 9999 * 12 + 10 - mi,
+                     pools.YM_MAX, -pools.YM_MAX, rnd.randint(-120000, 120000), rnd.randint(-3000, 3000)]
+        t = [rnd.randint(0, 86399), rnd.randint(0, 999999)] if idx % 2 else [86399, 999999]
+        plan.append(("VEC", ["D.add_interval_ym" if idx % 2 == 0 else "D.sub_interval_ym", n, ks]))
+        plan.append(("VEC", ["TS.add_interval_ym" if idx % 3 else "TS.sub_interval_ym", [n, t[0], t[1]], ks]))
+        plan.append(("VEC", ["OD.add_interval_ym" if idx % 3 == 0 else "OD.sub_interval_ym", [n, t[0], 0], ks[::2]]))
+        plan.append(("D.last_day_of_month", [n]))
+        plan.append(("TS.last_day_of_month", [[n, t[0], t[1]]]))
+        plan.append(("OD.last_day_of_month", [[n, t[0], 0]]))
+    plan += pools.plan_for(["D.add_interval_ym", "D.sub_interval_ym", "TS.add_interval_ym", "TS.sub_interval_ym",
+                            "OD.add_interval_ym", "OD.sub_interval_ym"], P, cap=3000)
+    eventtrace(v, "months", plan, {"result", "range", "panic"}, shard=4000)
+    daysweep(v, "ldm", sweep_ranges(v, "edges"), "cal", {"ldm"}, 40000)
+
+
+@prop("C07")
+def c07(v):
+    import pools
+    v.cov["rule"] = ("(B1) DaySweep.tla: every day of the window x critical times (midnight, +1us, noon-1us, noon, last microsecond) and "
+                     "random times: Timestamp::new, usecs, extract, accessors, date(), Time::from, order vs the previous microsecond and "
+                     "vs the date, judged against the walker frame; (B2) seconds of the day (quick: every 5th) x boundary microseconds: "
+                     "try_from_hms, extract, accessors; the (h,m,s,us) validity grid incl. u32 extremes; ordering/equality/hash of "
+                     "dates, times and timestamps over pools. distinct_nontrivial = distinct days + distinct (op,args).")
+    daysweep(v, "tsx", sweep_ranges(v, "full"), "tsx", {"us", "ext", "tacc", "dt", "tt", "cmpp", "cmpd"}, 8000,
+             extra=["--fixed", "0,1,2,3,4", "--ntimes", "0", "--nrand", "2"])
+    P = pools.Pools(v.seed, scale_of(v))
+    plan = []
+    step = 5 if v.tier == "quick" else 1
+    usl = [0, 1, 499999, 500000, 999999]
+    for k, s_ in enumerate(range(0, 86400, step)):
+        h, mi, sc = s_ // 3600, (s_ % 3600) // 60, s_ % 60
+        us = usl[k % 5]
+        plan.append(("T.try_from_hms", [h, mi, sc, us]))
+        plan.append(("T.extract", [[s_, us]]))
+        plan.append(("T.acc", [[s_, us]]))
+        if k % 4 == 0:
+            plan.append(("T.ord", [[s_, us], [max(0, s_ - 1), usl[(k + 1) % 5]]]))
+    if v.tier == "thorough":
+        for s_ in (0, 43199, 45296, 86399):
+            for us in range(0, 1000000):
+                plan.append(("T.extract", [[s_, us]]))
+    grid_h = [0, 1, 11, 12, 23, 24, 25, pools.U32_MAX]
+    grid_m = [0, 1, 59, 60, 61, pools.U32_MAX]
+    grid_u = [0, 1, 999999, 1000000, 1000001, pools.U32_MAX]
+    for h in grid_h:
+        for mi in grid_m:
+            for sc in grid_m:
+                for us in grid_u:
+                    plan.append(("T.try_from_hms", [h, mi, sc, us]))
+                    plan.append(("T.is_valid", [h, mi, sc, us]))
+                    if (h + mi + sc + us) % 3 == 0:
+                        plan.append(("D.and_hms", [0, h, mi, sc, us]))
+    plan += pools.plan_for(["TS.new", "TS.extract", "TS.usecs", "TS.try_from_usecs", "TS.acc", "TS.ord", "T.ord", "D.ord", "D.and_time",
+                            "D.and_hms", "T.from_ts", "T.try_from_usecs", "T.usecs", "D.acc", "T.acc", "D.to_ts"], P, cap=3000)
+    eventtrace(v, "clock", plan, {"result", "range", "panic"}, shard=30000)
+
+
+@prop("C17")
+def c17(v):
+    import pools
+    v.cov["rule"] = ("(B1) DaySweep.tla: per day the 12 trunc_* and 12 round_* results obtained through Date, through Timestamp at "
+                     "midnight and at critical whole-second times, and through OracleDate, compared with each other (relational check: "
+                     "Date result lifted to midnight = Timestamp result; OracleDate result = Timestamp result at whole seconds); "
+                     "(B2) composite events: interval arithmetic, last_day_of_month and differences through the three types side by "
+                     "side, mixed-type comparisons in both argument orders vs comparison of the converted values (Ops.tla AG.* clauses).")
+    agree = {"agree_d_ts_tr", "agree_d_ts_rd", "agree_ts_od_tr", "agree_ts_od_rd"}
+    daysweep(v, "agree", sweep_ranges(v, "full"), "dtr,ttr,otr", agree, 2500, extra=["--fixed", "0,3", "--ntimes", "2", "--nrand", "1"])
+    P = pools.Pools(v.seed, scale_of(v) * 2)
+    ops = [o for o in pools.SIG if o.startswith("AG.")]
+    plan = pools.plan_for(ops, P, cap=3000 * scale_of(v))
+    eventtrace(v, "agree", plan, {"result", "panic"})
+
+
 def replay(path):
     """Re-runs the check a replay file came from (same property, tier, seed)."""
     rp = json.load(open(path))
